@@ -16,7 +16,7 @@ RULE = ("'wild' shots: elevation -90..+90 deg (vertical and downward included), 
         "whose limits are placed just above the values reached at one step of a lax-limit trace of the same shot, so that two "
         "or three limits are crossed in the same step; non-trivial = RangeError with >= 3 rows, or a normal return after "
         ">= 1000 solver steps; distinct = distinct case dicts")
-ASSUMPTIONS = ["termination decided by a deterministic step budget (20 x drag-free path length to the limits / step + 1e5 solver steps), counted by a "
+ASSUMPTIONS = ["termination decided by a deterministic step budget (8 x drag-free path length to the limits / step + 1e5 solver steps; cases whose drag-free path exceeds 1.5e6 steps are skipped), counted by a "
                "subclass of the shot's Atmo; no wall clock",
                "limit comparisons on row values allow 1e-12 relative slack (storage round trip), earlier interpolated rows 1e-6",
                "drag x step kept inside the explicit-Euler stability region (BC >= 0.01, shipped tables, step <= 5 ft)"]
@@ -122,9 +122,13 @@ def check(case):
     calc_step = h / 2.0
     g = abs(_cfg_value(cfg, "cGravityConstant"))
     v0 = spec["mv"] + 100.0
-    budget = int(20 * (case["R"] + v0 * v0 / g + abs(_cfg_value(cfg, "cMaximumDrop")) +
-                       abs(alt0 - _cfg_value(cfg, "cMinimumAltitude"))) / calc_step + 1e5)
-    budget = min(budget, 4_000_000)
+    est = (case["R"] + v0 * v0 / g + abs(_cfg_value(cfg, "cMaximumDrop")) + abs(alt0 - _cfg_value(cfg, "cMinimumAltitude"))) / calc_step
+    if est > 1.5e6:
+        # a legitimate flight this long (e.g. a 4300 fps vertical shot in a vacuum under weak gravity climbs 1.9 million ft)
+        # costs minutes per case; it is left out rather than given a budget that it could exceed legitimately
+        r.label("skipped:drag-free-path-too-long")
+        return r
+    budget = int(8 * est + 1e5)
     sh = build.shot(spec)
     atmo_obj, Exceeded = build.counting(sh.atmo, budget)
     calc = build.calculator(cfg)
